@@ -365,6 +365,48 @@ impl CliCase {
             // empty clauses make everything trivially UNSAT; keep them rare
             clauses.retain(|c| !c.is_empty());
         }
+        // a harder family: formulas that take dozens to hundreds of conflicts (pigeon-hole, or
+        // random 3-SAT near the threshold), so that restarts and the clean-up of the learned
+        // clause database (with the small limits of `config_args`) happen during the run
+        let (num_vars, mut clauses) = if rng.chance(0.25) {
+            if rng.chance(0.4) {
+                let holes = rng.range(3, 4) as i32;
+                let pigeons = holes + 1;
+                let var = |p: i32, h: i32| p * holes + h + 1;
+                let mut cs: Vec<Vec<i32>> = (0..pigeons).map(|p| (0..holes).map(|h| var(p, h)).collect()).collect();
+                for h in 0..holes {
+                    for p in 0..pigeons {
+                        for q in p + 1..pigeons {
+                            cs.push(vec![-var(p, h), -var(q, h)]);
+                        }
+                    }
+                }
+                if rng.chance(0.3) {
+                    // drop one clause: usually satisfiable then
+                    let i = rng.below(cs.len());
+                    let _ = cs.remove(i);
+                }
+                ((pigeons * holes) as usize, cs)
+            } else {
+                let nv = rng.range(10, 15) as usize;
+                let nc = (nv as f64 * (3.8 + rng.below(10) as f64 * 0.1)) as usize;
+                let cs: Vec<Vec<i32>> = (0..nc)
+                    .map(|_| {
+                        let mut c: Vec<i32> = vec![];
+                        while c.len() < 3 {
+                            let v = rng.range32(1, nv as i32);
+                            if !c.iter().any(|l: &i32| l.abs() == v) {
+                                c.push(if rng.chance(0.5) { v } else { -v });
+                            }
+                        }
+                        c
+                    })
+                    .collect();
+                (nv, cs)
+            }
+        } else {
+            (num_vars, clauses)
+        };
         if rng.chance(0.2) && !clauses.is_empty() {
             let c = clauses[rng.below(clauses.len())].clone();
             clauses.push(c); // duplicate clause
@@ -383,8 +425,12 @@ impl CliCase {
             let pad = target.saturating_sub(3);
             text = format!("c {}\n{}", "x".repeat(pad), text);
         }
-        let proof = rng.chance(0.6);
         let mut args = config_args(rng, "cnf");
+        // KF-008: with `--conflict-resolver no-learning` nothing is learned, so the DRAT file of a
+        // refutation found by search is just the empty clause; outside a small slice no proof is
+        // asked for together with that resolver
+        let no_learning = args.iter().any(|a| a == "no-learning");
+        let proof = rng.chance(0.6) && (!no_learning || rng.chance(0.05));
         if twin && rng.chance(0.7) {
             args.push("-s".to_string());
         }
